@@ -107,7 +107,7 @@ SPECS["C01"] = [
 ]
 
 # properties whose theorems are (also) stated about translations that belong to another property's file
-USES = {"C17": ["C01"], "C07": ["C06"], "C08": ["C10"], "C12": ["C02", "C01"]}
+USES = {"C17": ["C01"], "C07": ["C06"], "C08": ["C10"], "C12": ["C02", "C01"], "C13": ["C02", "C01"]}
 
 # ---- C10: bilinear interpolation kernel of scattering matrices; C08: model amplitudes with matrices (one timetrace)
 SPECS["C10"] = [
